@@ -141,6 +141,9 @@ class SymTensor(torch.Tensor):
             return torch.tensor(self.vals(), dtype=self.dtype).reshape(self.shape)
 
 
+_INT_RANGES = {torch.uint8: (0, 255), torch.int8: (-128, 127), torch.int16: (-32768, 32767)}
+
+
 def s_cast(v, dtype):
     if dtype == torch.bool:
         return s_bool(v)
@@ -157,6 +160,18 @@ def s_cast(v, dtype):
             return to_real_expr(v)
         return float(v)
     # integer dtypes
+    rng = _INT_RANGES.get(dtype)
+    if rng is not None and not isinstance(v, (XR, float)) :
+        lo, hi = rng
+        if not is_sym(v):
+            v = int(v)
+            if v < lo or v > hi:
+                v = (v - lo) % (hi - lo + 1) + lo  # two's-complement narrowing, as torch does
+            return v
+        if z3.is_int(v) and ENGINE is not None:
+            # symbolic integers are mathematical: they must provably fit the narrow dtype (model obligation)
+            ENGINE.model_obligations.append(z3.And(v >= lo, v <= hi))
+            return v
     if isinstance(v, XR):
         raise Unsupported("non-finite float -> int cast")
     if is_sym(v):
